@@ -256,6 +256,27 @@ def cli_leg(ck, tier, rnd):
         # (as multisets of lines: the recommendation section is sorted on the rendered strings, so its order may differ)
         if key in first and plain_key in first and sorted(report.strip_ansi(first[key]).split('\n')) != sorted(first[plain_key].split('\n')):
             ck.violation('colour-changes-content', 'the coloured report without its colour codes has other lines than the -n report', replay)
+    # -l only removes lines below the level: the warning- and failure-coloured lines of the -l info report are exactly those of the
+    # -l warn report; its failure-coloured lines exactly those of the -l fail report (whole lines, whatever section they are in)
+    def coloured(text, codes):
+        import re as _re
+        return sorted(l for l in text.split('\n') if any(('\033[0;%dm' % c) in l for c in codes))
+    for (cid_, o), text in list(first.items()):
+        b, v, n, lvl, fmt = o
+        if fmt != 'text' or n or lvl != 'info':
+            continue
+        for lv2, codes in (('warn', (31, 33)), ('fail', (31,))):
+            other = first.get((cid_, (b, v, n, lv2, fmt)))
+            if other is None:
+                continue
+            a_, b_ = coloured(text, codes), coloured(other, codes)
+            if a_ != b_:
+                gone = [l for l in a_ if l not in b_][:2]
+                new_ = [l for l in b_ if l not in a_][:2]
+                ck.violation('level-changes-lines-at-or-above-it level=%s' % lv2, 'peer %d, options batch=%s verbose=%s: lines at or above %s differ between -l info and -l %s: gone %r, new %r'
+                             % (cid_, b, v, lv2, lv2, gone, new_), {'case_id': cid_, 'info_report': text[-2500:], 'level_report': other[-2500:]})
+            else:
+                ck.cov['traces_validated_against_impl'] += 1
     for k, d in jdocs.items():
         if 'j' in d and 'jj' in d and d['j'] != d['jj']:
             ck.violation('json-compact-vs-indented', '-j and -jj parse to different values', {'key': k})
@@ -279,6 +300,10 @@ def modes_leg(ck):
         subjects.append((tag, {'servers': {(rating.HOST, 22): cfg}}, ['-1', rating.HOST]))
     subjects.append(('policy-satisfied', {'servers': {(rating.HOST, 22): H['warn']}, 'files': {'policy.txt': pol_ok}}, ['--skip-rate-test', '-P', '{tmp}/policy.txt', rating.HOST]))
     subjects.append(('policy-violated', {'servers': {(rating.HOST, 22): H['warn']}, 'files': {'policy.txt': pol_bad}}, ['--skip-rate-test', '-P', '{tmp}/policy.txt', rating.HOST]))
+    # policy files written by older releases (one directive per size; the loader prints a deprecation notice - not into the JSON document)
+    legacy = 'hostkey_size_ssh-ed25519 = 256\n'
+    subjects.append(('policy-legacy-satisfied', {'servers': {(rating.HOST, 22): H['warn']}, 'files': {'policy.txt': pol_ok + legacy}}, ['--skip-rate-test', '-P', '{tmp}/policy.txt', rating.HOST]))
+    subjects.append(('policy-legacy-violated', {'servers': {(rating.HOST, 22): H['warn']}, 'files': {'policy.txt': pol_bad + legacy}}, ['--skip-rate-test', '-P', '{tmp}/policy.txt', rating.HOST]))
     optsets = list(itertools.product((False, True), (False, True), (False, True), ('info', 'warn', 'fail'), ('text', 'j', 'jj')))
     scs, meta = [], []
     for tag, world, tail in subjects:
@@ -315,12 +340,12 @@ def modes_leg(ck):
             except ValueError:
                 ck.violation('json-not-one-document mode=%s' % tag.split('-')[0], '%s under %r: stdout is not one JSON document' % (tag, o), replay)
                 continue
-            if tag.startswith('policy') and doc.get('passed') != (tag == 'policy-satisfied'):
+            if tag.startswith('policy') and doc.get('passed') != tag.endswith('-satisfied'):
                 ck.violation('policy-verdict-depends-on-options %s' % _generic(o), '%s under %r: JSON says passed=%r' % (tag, o, doc.get('passed')), replay)
                 continue
         elif tag.startswith('policy') and lvl == 'info':
             shown = 'Passed' in r['stdout'] and 'Failed' not in r['stdout']
-            if shown != (tag == 'policy-satisfied'):
+            if shown != tag.endswith('-satisfied'):
                 ck.violation('policy-verdict-depends-on-options %s' % _generic(o), '%s under %r: the result line shows %s' % (tag, o, 'Passed' if shown else 'not Passed'), replay)
                 continue
         ck.cov['traces_validated_against_impl'] += 1
